@@ -134,7 +134,7 @@ func (h Header) ContainsObject(obj parser.QueryExpression) (int, bool) {
 			continue
 		}
 
-		if !strings.EqualFold(f.Identifier, column) {
+		if f.Identifier != column {
 			continue
 		}
 
